@@ -1122,5 +1122,8 @@ func runC16(c *cli.Ctx) error {
 		}
 	}
 
-	return runJSON(c, rn, root.Fork())
+	if err := runJSON(c, rn, root.Fork()); err != nil {
+		return err
+	}
+	return runCodec(c, root.Fork())
 }
